@@ -70,6 +70,11 @@ class GraphQLSyntaxError(GraphQLResponseError):
         self.position = position
         self._highlighted = None  # type: Optional[str]
 
+    def _clamped_position(self) -> int:
+        # Errors raised at the end of a truncated document can point one past
+        # the last character; render them at the end of the source.
+        return max(0, min(self.position, len(self.source)))
+
     @property
     def highlighted(self) -> str:
         """
@@ -78,7 +83,7 @@ class GraphQLSyntaxError(GraphQLResponseError):
         if self._highlighted is not None:
             return self._highlighted
 
-        highlight = highlight_location(self.source, self.position)
+        highlight = highlight_location(self.source, self._clamped_position())
         self._highlighted = "%s %s" % (self.message, highlight)
         return self._highlighted
 
@@ -86,7 +91,7 @@ class GraphQLSyntaxError(GraphQLResponseError):
         return self.highlighted
 
     def to_dict(self) -> Dict[str, Any]:
-        line, col = index_to_loc(self.source, self.position)
+        line, col = index_to_loc(self.source, self._clamped_position())
         return {
             "message": str(self),
             "locations": [{"line": line, "columne": col}],
